@@ -615,6 +615,10 @@ class Log():
                 # Guard against multiple responses due to re-sending
                 if not self.toc:
                     logger.debug('Logging reset, continue with TOC download')
+                    # The blocks do not exist in the Crazyflie any more
+                    for block in self.log_blocks:
+                        block.started = False
+                        block.added = False
                     self.log_blocks = []
 
                     self.toc = Toc()
